@@ -285,6 +285,53 @@ def patch_table(tree, fname):
     return "\n".join(lines) + "\n  | _ => none"
 
 
+# ------------------------------------------------------------------ natural-number arithmetic (node counts, exponents)
+def nat_expr(e, env, fname):
+    """env: python source text of a name/attribute -> Lean variable"""
+    key = ast.unparse(e)
+    if key in env:
+        return env[key]
+    if isinstance(e, ast.Constant) and isinstance(e.value, int) and not isinstance(e.value, bool) and e.value >= 0:
+        return str(e.value)
+    if isinstance(e, ast.BinOp):
+        ops = {ast.Add: "+", ast.Mult: "*", ast.Sub: "-", ast.FloorDiv: "/"}
+        for k, sym in ops.items():
+            if isinstance(e.op, k):
+                return f"({nat_expr(e.left, env, fname)} {sym} {nat_expr(e.right, env, fname)})"
+    if isinstance(e, ast.Call) and isinstance(e.func, ast.Name) and e.func.id in ("max", "min") and len(e.args) == 2:
+        fn = "Nat.max" if e.func.id == "max" else "Nat.min"
+        return f"({fn} {nat_expr(e.args[0], env, fname)} {nat_expr(e.args[1], env, fname)})"
+    raise Unsupported(f"unsupported arithmetic {key[:60]} at {where(e, fname)}")
+
+
+def default_nodes(cls, fn_name, fname):
+    """`if nnodes is None: nnodes = <expr>` inside IntegratePlanar.<fn_name>"""
+    fn = find_func(cls, fn_name)
+    if fn is None:
+        raise Unsupported(f"{cls.name}.{fn_name} not found")
+    for st in fn.body:
+        if isinstance(st, ast.If) and isinstance(st.test, ast.Compare) and ast.unparse(st.test) == "nnodes is None":
+            if len(st.body) == 1 and isinstance(st.body[0], ast.Assign) and ast.unparse(st.body[0].targets[0]) == "nnodes":
+                return nat_expr(st.body[0].value, {"expx": "a", "expy": "b", "curve.degree": "deg", "curve.npts": "(deg + 1)"}, fname)
+    raise Unsupported(f"default node count not found in {fn_name} at {where(fn, fname)}")
+
+
+def moment_reduction(tree, fname):
+    """IntegrateShape.polynomial: total += IntegrateJordan.vertical(jordan, E1, E2, nnodes) ... return total / D"""
+    cls = find_class(tree, "IntegrateShape")
+    fn = find_func(cls, "polynomial")
+    call, div = None, None
+    for n in ast.walk(fn):
+        if isinstance(n, ast.Call) and isinstance(n.func, ast.Attribute) and n.func.attr == "vertical" and ast.unparse(n.func.value) == "IntegrateJordan":
+            call = n
+        if isinstance(n, ast.Return) and isinstance(n.value, ast.BinOp) and isinstance(n.value.op, ast.Div) and ast.unparse(n.value.left) == "total":
+            div = n.value.right
+    if call is None or div is None or len(call.args) < 3:
+        raise Unsupported(f"unsupported shape of IntegrateShape.polynomial at {where(fn, fname)}")
+    env = {"expx": "a", "expy": "b"}
+    return nat_expr(call.args[1], env, fname), nat_expr(call.args[2], env, fname), nat_expr(div, env, fname)
+
+
 # ------------------------------------------------------------------ numeric literals
 def literal_consts(srcdir):
     """(name, value-as-Fraction) for the tolerance literals the properties mention"""
@@ -336,7 +383,7 @@ def lean_rat(fr):
 
 
 # ------------------------------------------------------------------ driver
-HEADER = "/- GENERATED by harness/translate.py from /repo/src/shapepy — do not edit; regenerated on every run -/\n"
+HEADER = "/- GENERATED by harness/translate.py from /repo/src/shapepy — do not edit; regenerated on every run -/\nset_option linter.unusedVariables false\n"
 
 
 def regenerate(srcdir, gendir):
@@ -403,8 +450,22 @@ def regenerate(srcdir, gendir):
     except Exception as e:
         msgs.append(f"consts: translator error {e!r}")
         out2.append(f"-- consts: NOT TRANSLATED ({e!r})\n")
+    try:
+        ctree = ast.parse(open(os.path.join(srcdir, "curve.py")).read())
+        ip = find_class(ctree, "IntegratePlanar")
+        out2.append("/-- default number of quadrature nodes of `IntegratePlanar.vertical(curve, a, b)` for a segment of degree `deg` -/\n")
+        out2.append(f"def verticalNodes (a b deg : Nat) : Nat := {default_nodes(ip, 'vertical', 'curve.py')}\n")
+        e1, e2, dv = moment_reduction(tree, "shape.py")
+        out2.append("/-- `IntegrateShape.polynomial(S, a, b)` = (sum over curves of `vertical(curve, e1, e2)`) / divisor -/\n")
+        out2.append(f"def momentExpX (a b : Nat) : Nat := {e1}\ndef momentExpY (a b : Nat) : Nat := {e2}\ndef momentDivisor (a b : Nat) : Nat := {dv}\n")
+    except Unsupported as e:
+        msgs.append(f"integrals: unsupported construct: {e}")
+        out2.append(f"-- integrals: NOT TRANSLATED ({e})\n")
+    except Exception as e:
+        msgs.append(f"integrals: translator error {e!r}")
+        out2.append(f"-- integrals: NOT TRANSLATED ({e!r})\n")
     out2.append("\nend ShapeVerif.Gen\n")
     ch2 = write_if_changed(os.path.join(gendir, "Tables.lean"), "".join(out2))
     if msgs:
         return False, "; ".join(msgs)
-    return True, f"translated 10 units from shape.py, plot.py, polygon.py, jordancurve.py, curve.py (changed: {ch1 or ch2})"
+    return True, f"translated 14 units from shape.py, plot.py, polygon.py, jordancurve.py, curve.py (changed: {ch1 or ch2})"
